@@ -30,6 +30,7 @@
 import CdnsVerif.Model.Writer
 import CdnsVerif.Proofs.Stack
 import CdnsVerif.Proofs.StackShape
+import CdnsVerif.Model.File
 
 namespace CdnsVerif.Props.C16
 open CdnsVerif.Model.Writer CdnsVerif.Spec.Cbor
@@ -397,6 +398,24 @@ theorem stack_closed_output_is_complete_file (ops : List Op) :
   have h1 := stack_failure_reported hdr enc ops o ho hth
   have h2 := (shape_run hdr enc ops St.init (shape_init hdr enc)).2 o ho hth
   rw [h1]; exact h2
+
+open CdnsVerif.Model.File CdnsVerif.Model.Schema CdnsVerif.Model.Structs in
+/-- …in the notation of the file model: with the header the exporter writes for preamble `pv` and blocks serialised by the block
+    writer (`blockOf` = the block value built from a group of records), a non-empty output closed without a reported failure is, byte
+    for byte as accepted by the OS, `Model.File.fileBytes pv blocks` – the layout C01's and C02's theorems are stated for
+    (read back completely, one well-formed RFC 8949 item, …). -/
+theorem stack_closed_output_is_cdns_file (pv : Val) (blockOf : List Nat → Val) (ops : List Op) :
+    let hdr := [0x83, 0x65] ++ cdnsText ++ writeBytes filePreamble pv ++ [0x9f]
+    let enc := fun rs => writeBytes block (blockOf rs)
+    ∀ o ∈ (run hdr enc St.init ops).1.closed, o.threw = false →
+      o.os = [] ∨ ∃ bl : List (List Nat), bl ≠ [] ∧ o.os = fileBytes pv (bl.map blockOf) := by
+  intro hdr enc o ho hth
+  rcases stack_closed_output_is_complete_file hdr enc ops o ho hth with h | ⟨bl, hne, _, hos⟩
+  · exact Or.inl h
+  · refine Or.inr ⟨bl, hne, ?_⟩
+    rw [hos]
+    simp only [fileBytes, List.map_map, hdr, enc, List.append_assoc]
+    rfl
 
 /-- the hypotheses of `stack_recovery` are met by a real history: a block whose flush the OS rejects -/
 example : let s := (run [1, 2] (fun rs => rs) St.init [.buffer 7, .writeBlock [] [(1, some .fail)]]).1
